@@ -20,6 +20,7 @@ From BCL Require Import Model.Compile Spec.Syntax Spec.AstSem Proofs.T2Expr Proo
 From BCL Require Import Proofs.CompileVerifies.
 From BCL Require Import Proofs.ParserTotal.
 From BCL Require Import Proofs.VerifyFrag Proofs.CompileVerifies Proofs.Limits.
+From BCL Require Import Proofs.ParserTotal Proofs.SizeBounds.
 
 Theorem C06_lexer_total : forall cs, exists tk,
   last_opt (fst (lex cs)) = Some tk /\ (ttyp tk = tEOF \/ ttyp tk = tFAIL).
@@ -119,6 +120,30 @@ Theorem C06_peak_of_compiled_code : forall name src,
   exists p, ast_program (fst (lex [src])) = Some p /\ peak (pr_prog pr) = Some (need_prog p, nest_prog p).
 Proof. first [exact Limits.parsed_peak | apply Limits.parsed_peak]. Qed.
 Print Assumptions C06_peak_of_compiled_code.
+
+Theorem C06_compiled_runs_clean_input : forall name src,
+  let pr := parse_whole name src in
+  nlen src < 2^56 -> pr_ok pr = true ->
+  match rr_res (execute (pr_prog pr) false false) with
+  | VOk | VErr _ _ | VPanic PExcluded => True
+  | VPanic _ | VInternal _ => False
+  end.
+Proof. first [exact SizeBounds.compiled_runs_clean_input | apply SizeBounds.compiled_runs_clean_input]. Qed.
+Print Assumptions C06_compiled_runs_clean_input.
+
+Theorem C06_constants_bounded_by_input : forall name cs,
+  ps_constants (pr_stats (parse_chunks name cs)) <= nlen (concat cs) + 2.
+Proof. first [exact SizeBounds.constants_bounded_by_input | apply SizeBounds.constants_bounded_by_input]. Qed.
+Print Assumptions C06_constants_bounded_by_input.
+
+Theorem C06_code_bounded_by_input : forall name cs,
+  ps_code (pr_stats (parse_chunks name cs)) <= 40 * nlen (concat cs) + 91.
+Proof. first [exact SizeBounds.code_bounded_by_input | apply SizeBounds.code_bounded_by_input]. Qed.
+Print Assumptions C06_code_bounded_by_input.
+
+Theorem C06_token_count : forall cs, N.of_nat (length (fst (lex cs))) <= nlen (concat cs) + 2.
+Proof. first [exact SizeBounds.lex_token_count | apply SizeBounds.lex_token_count]. Qed.
+Print Assumptions C06_token_count.
 
 (* the literals and limits that used to panic are errors in the model (and, by the differential run, in the code) *)
 Example C06_example :
